@@ -14,8 +14,13 @@ def own_buffer_unchanged(ctx):
     s = ctx.self
     d0, d1 = ctx.old.get(s, "data"), ctx.get(s, "data")
     i = z3.Int(sv.uid("ob"))
+    from .base import fexists, entry_is_str, entry_str_e
+    fx0, fx1 = fexists(ctx.old), fexists(ctx)
+    fn = lambda k: entry_str_e(d0.at(k).items[1])
+    # upstream evictions remove upstream files only (spill file names carry the id of their slot): own files stay
+    own_files = z3.ForAll([i], Implies(And(0 <= i, i < d0.n, entry_is_str(d0.at(i).items[1]), fx0.dom(fn(i))), fx1.dom(fn(i))))
     return And(d1.n == d0.n, z3.ForAll([i], Implies(And(0 <= i, i < d0.n), sv.value_eq(d1.at(i), d0.at(i)))),
-               ctx.get(s, "_total_mem").e == ctx.old.get(s, "_total_mem").e)
+               ctx.get(s, "_total_mem").e == ctx.old.get(s, "_total_mem").e, own_files)
 
 
 def register(reg):
